@@ -184,14 +184,25 @@ def unit_xgas_save(twin=False):
         PR = local(info, s, "PR")
         isPR = B.z3_prove(list(s.pc), tm.to_bool(PR))[0] == "proved"
         r.add("component.moles==phase.moles_x", DISCHARGED if get("Set_moles") == [mx] else FAILED, "trace", 0, repr(get("Set_moles"))[:100], kind="trace")
-        r.add("component.pressure==phase.p_soln_x", DISCHARGED if get("Set_p") == [ps] else FAILED, "trace", 0, repr(get("Set_p"))[:100], kind="trace")
+        # the partial pressure stored is the solved one for a component that is in the model and 0 for one that is not (whatever p_soln_x still holds)
+        inm = tm.eq(fld0(ex, s, "in", "I", P), tm.num(1, "I"))
+        sp = get("Set_p")
+        okp = len(sp) == 1
+        okf = True
         fs = get("Set_f"); ph_ = get("Set_phi")
+        for hy, present in cases(list(s.pc), inm):
+            want_p = ps if present else tm.num(0, "R")
+            _eq = lambda a_, b_: a_ is b_ or B.z3_prove(hy, tm.eq(a_, b_))[0] == "proved"
+            if okp and not _eq(sp[0], want_p):
+                okp = False
+            want_f = (want_p * phi if not twin else want_p) if isPR else want_p
+            if len(fs) != 1 or not _eq(fs[0], want_f):
+                okf = False
+        r.add("component.pressure==phase.p_soln_x(in_the_model)_or_0(not_in_the_model)", DISCHARGED if okp else FAILED, "sympy", 0, repr(sp)[:100], kind="trace")
         if isPR:
             okphi = ph_ == [phi]
-            okf = len(fs) == 1 and B.sympy_equal(fs[0], ps * phi if not twin else ps)[0]
         else:
             okphi = len(ph_) == 1 and tm.isnum(ph_[0]) and ph_[0].args[0] == 1
-            okf = len(fs) == 1 and B.sympy_equal(fs[0], ps)[0]
         r.add("component.phi(%s)" % ("Peng-Robinson" if isPR else "ideal=1"), DISCHARGED if okphi else FAILED, "trace", 0, repr(ph_)[:100], kind="trace")
         r.add("component.fugacity==p*phi(%s)" % ("Peng-Robinson" if isPR else "ideal"), DISCHARGED if okf else FAILED, "sympy", 0, repr(fs)[:100])
     r.add("reach.loop", DISCHARGED if n >= 2 else UNDECIDED, "symex", 0, "%d" % n, kind="vacuity")
